@@ -9,7 +9,7 @@ import sys
 ROOT = os.path.dirname(os.path.dirname(os.path.abspath(__file__)))
 res = {}
 for line in open(sys.argv[1]):
-    m = re.match(r"(C\d\d-m\d+) (C\d\d) :: rc=(\d+) violations=(\d+)(.*)", line)
+    m = re.match(r"(C\d\d-\w+) (C\d\d) :: rc=(\d+) violations=(\d+)(.*)", line)
     if not m:
         continue
     seed, chk, rc, nv, rest = m.groups()
